@@ -9,10 +9,12 @@ claimed = {
  "C07": ("exploration","hist","Seeded histories over {INSERT batch, DELETE WHERE p, advance clock past the compactor timer, vacuum, reopen} with row-set sizes forcing several row-sets and partial compactions; after every step every table is compared with a multiset model, DELETE counts are checked, results across each compaction pass are compared, sorted storage scans are checked for key order.","4"),
  "C12": ("exploration","hist","Seeded layout histories (several row-sets, DVs, compactions, reopen) with ORDER BY / LIMIT / OFFSET queries at query points, each checked against the engine's own unordered result: K-sorted, permutation, slice [m..m+n] on K, unordered LIMIT count and containment.","4"),
  "C04": ("fault_enumeration","crash","A seeded history is executed once on the real on-disk engine with every mutating syscall journalled at the libc boundary (so a removed or reordered fsync/write/rename is seen as the kernel would see it); crash images are then derived from the journal for crash indexes x torn lengths of the write in flight x durability model (everything issued / un-synced tails lost) x one-level crash during recovery; each image is recovered with Database::new_on_disk and must equal the model of the acknowledged prefix with or without the statement in flight, accept new statements, and a second recovery must agree. Thorough enumerates every index and every byte of manifest writes.","4"),
+ "C15": ("fault_enumeration","fault","For each statement under test (filtered scans, aggregates, ORDER BY/LIMIT, joins, INSERT VALUES, INSERT..SELECT, DELETE) a fault-free execution on a twin database records rows and per-operator item counts; then (operator, item index, error|panic) faults are injected through the guarded hook in the per-operator output loop, one per execution, and I/O faults (EIO, ENOSPC, EINTR, short transfer) on the n-th syscall of a given class and file; reads are faulted on a cold copy. A statement in which a fault fired must not return Ok with different rows; a failed INSERT/DELETE must leave its table unchanged in the running instance and in a reopened copy of the directory; an acknowledged one must be durable.","4"),
  "C18": ("fault_enumeration","corrupt","A seeded database is built with CRC32 checksums (default_for_cli), then single at-rest corruptions of every .col/.idx file are enumerated (bit flip, byte overwrite, zero-filled sector, truncation at first/last/middle/trailer/footer/seeded positions) x read order (corrupt then open; open, cache, corrupt; open, corrupt, read) x optional compaction pass over damaged data; every table is read three times and each read must fail or return exactly the original rows.","4"),
  "C13": ("exploration","hist","Seeded layout histories on tables with a primary key of any type at any position, tiny blocks, with key-range queries at query points; each is compared with the same query under PRAGMA disable_optimizer (no pushdown), with the model, and at storage level scan(range) vs scan()+filter.","4"),
 }
 tech = {
+ "fault": "deterministic simulation: enumerated operator-level error/panic injection and syscall-level I/O fault injection, twin-database oracle",
  "crash": "deterministic simulation: syscall-journal-derived crash images (torn writes, lost un-synced tails, crash during recovery) checked against a reference model",
  "corrupt": "deterministic simulation: enumerated at-rest disk corruption x read order, results compared with pristine reads",
  "hist": "deterministic simulation: seeded history search with simulated clock (compaction/vacuum), reopen events and a reference model",
@@ -64,6 +66,7 @@ m = {
  "engines": [
    {"name":"crash","path":"/verif/sim/src/crash.rs","serves_properties":["C04"],"kind_free_text":"libc-interposition journal, crash-image enumeration and recovery against a model"},
    {"name":"corrupt","path":"/verif/sim/src/corrupt.rs","serves_properties":["C18"],"kind_free_text":"at-rest corruption enumeration x read order"},
+   {"name":"fault","path":"/verif/sim/src/fault.rs","serves_properties":["C15"],"kind_free_text":"operator and I/O fault enumeration against a fault-free twin"},
    {"name":"hist","path":"/verif/sim/src/hist.rs","serves_properties":["C03","C05","C07","C12","C13"],"kind_free_text":"seeded single-session history simulation (simulated clock, compaction/vacuum passes, reopen) with reference model and twin-engine oracles"},
  ],
  "checks": checks,
